@@ -444,7 +444,8 @@ def _container_prog(repo: Path, cname: str) -> list:
         if [ast.unparse(b) for b in cls.bases] != ["ArrayBase"]:
             fail(cls, f"{cname} must derive from ArrayBase only")
         inits = [n for n in cls.body if isinstance(n, ast.FunctionDef) and n.name == "__init__"]
-        if len(inits) != 1 or [ast.unparse(x) for x in body_no_doc(inits[0])] != ["super().__init__(shape=(geo.row, geo.col))"]:
+        if len(inits) != 1 or [ast.unparse(x) for x in body_no_doc(_norm(parse(repo, rel), inits[0], cls))] not in (
+                ["super().__init__(shape=(geo.row, geo.col))"], ["super().__init__((geo.row, geo.col))"]):
             fail(cls, f"{cname}.__init__ must only call ArrayBase.__init__")
         brel, bpieces, bother = CONTAINERS["ArrayBase"]
         base = _class(parse(repo, brel), "ArrayBase")
